@@ -126,7 +126,56 @@ Section ConvPairs.
     intros ps. rewrite (forall2_members ids pss F), (forall2_members ids' pss' F').
     split; intros (s & Hs & Hp); exists s; (split; [now apply E|exact Hp]).
   Qed.
+  (* both calls fail or both succeed *)
+  Lemma conv_loop_err_inv ids : forall seen, conv_loop oh ov par vert seen ids = Err -> exists s, In s ids /\ idp s = Err.
+  Proof.
+    induction ids as [|a r IH]; intros seen; cbn [conv_loop]; [discriminate|].
+    destruct (id_pairs oh vert a) as [ps|] eqn:Ea; [|intros _; exists a; split; [now left|exact Ea]].
+    destruct (fresh seen ps) as [s1 k]. destruct (conv_loop oh ov par vert s1 r) as [gs|] eqn:Er; [discriminate|].
+    intros _. destruct (IH s1 Er) as (s & Hs & He). exists s. split; [now right|exact He].
+  Qed.
+  Lemma forall2_ok ids pss : Forall2 (fun s ps => idp s = Ok ps) ids pss -> forall s, In s ids -> exists ps, idp s = Ok ps.
+  Proof. induction 1 as [|s ps ids pss Hs F IH]; intros t; [intros []|]. intros [<-|Ht]; [eauto|now apply IH]. Qed.
+  Lemma conv_err_transport ids ids' gs : same_members ids ids' -> conv oh ov par vert ids = Ok gs -> conv oh ov par vert ids' = Err -> False.
+  Proof.
+    intros E C C'. destruct (conv_ok_inv ids gs C) as (pss & F & _). unfold conv in C, C'.
+    destruct (negb (qcheck oh ov)); [discriminate|]. destruct (conv_loop_err_inv ids' [] C') as (s & Hs & He).
+    destruct (forall2_ok ids pss F s (proj2 (E s) Hs)) as (ps & Hp). unfold idp in *. congruence.
+  Qed.
+  Theorem conv_deterministic ids ids' : same_members ids ids' ->
+    match conv oh ov par vert ids, conv oh ov par vert ids' with
+    | Ok gs, Ok gs' => Permutation (List.concat (map (@g_pairs P) gs)) (List.concat (map (@g_pairs P) gs')) /\ NoDup (List.concat (map (@g_pairs P) gs))
+    | Err, Err => True
+    | _, _ => False
+    end.
+  Proof.
+    intros E. destruct (conv oh ov par vert ids) as [gs|] eqn:C, (conv oh ov par vert ids') as [gs'|] eqn:C'.
+    - exact (conv_pairs_deterministic ids ids' gs gs' E C C').
+    - exact (conv_err_transport ids ids' gs E C C').
+    - exact (conv_err_transport ids' ids gs' (same_members_sym _ _ E) C' C).
+    - exact I.
+  Qed.
 End ConvPairs.
+
+(* the three exported forms: E2Q (index form / refused height range), E2QA (altitude keys), S2Q (spatial-ID notation first) *)
+Definition pairs_of_groups {P} (gs : list (group P)) : list pair := List.concat (map (@g_pairs P) gs).
+Definition groups_agree {P} (a b : result (list (group P))) : Prop :=
+  match a, b with
+  | Ok gs, Ok gs' => Permutation (pairs_of_groups gs) (pairs_of_groups gs') /\ NoDup (pairs_of_groups gs)
+  | Err, Err => True
+  | _, _ => False
+  end.
+Theorem e2q_perm_invariant {P} (par : P) idx ids ids' oh ov : same_members ids ids' -> groups_agree (e2q par idx ids oh ov) (e2q par idx ids' oh ov).
+Proof. intros E. unfold e2q. apply conv_deterministic, E. Qed.
+Theorem e2qa_perm_invariant ids ids' oq oa E O : same_members ids ids' -> groups_agree (e2qa ids oq oa E O) (e2qa ids' oq oa E O).
+Proof. intros M. unfold e2qa. apply conv_deterministic, M. Qed.
+Theorem s2q_perm_invariant {P} (par : P) idx sids sids' oh ov : same_members sids sids' -> groups_agree (s2q par idx sids oh ov) (s2q par idx sids' oh ov).
+Proof.
+  intros E. unfold s2q, sids_to_eids. destruct (map_opt sid_to_eid_str sids) as [l|] eqn:M.
+  - destruct (map_opt_same_members sid_to_eid_str sids sids' l E M) as (l' & -> & S). apply e2q_perm_invariant, S.
+  - destruct (map_opt sid_to_eid_str sids') as [l'|] eqn:M'; [|exact I].
+    destruct (map_opt_same_members sid_to_eid_str sids' sids l' (same_members_sym _ _ E) M') as (l0 & M0 & _). congruence.
+Qed.
 
 (* ---- B8. corridor (transform.GetExtendedSpatialIdsWithinRadiusOfLine, after the fixes 70c64b2 and 915e48e).  The measuring loop
    reuses one closest.Measure whose search state is carried from candidate to candidate: Corridor.v threads that state (`St`,
